@@ -111,6 +111,23 @@ add("C13", "model_checking",
     "exhaustive enumeration of a finite type universe x closed world of classes against a denotational oracle; all pairs / triples for the laws",
     "DESIGN.md section 5 C13")
 
+add("C10", "model_checking",
+    "All 8 predicates over the integer domain {0,1,2} (so 'every predicate' is literal on it) and attribute predicates over class bounds, "
+    "in every mixture of <= 3 dependent methods + a static method, priorities, one / two positions, keyword-only dependent parameter and "
+    "unions of dependent types with different bounds, on every corpus value: outcome vs R1-R3 with the dependent clauses, and every value "
+    "a user condition is asked about must be an instance of its bound.",
+    "Trusted: reference semantics for dependent types (vt/annot.py); predicates pure and total.",
+    "bounded-exhaustive enumeration of programs x values on the real implementation vs a reference model, with a monitor on the predicate log",
+    "DESIGN.md section 5 C10")
+
+add("C11", "model_checking",
+    "Every built-in value type of the stated list (and their & / | combinations) x every companion configuration that steers the generator "
+    "onto its if-chain, table and counting paths x the whole value corpus: the method runs iff the value has the documented meaning, which "
+    "must also equal isinstance(value, type); the check fails as a harness error if a generator strategy was never produced.",
+    "Trusted: documented meaning of each value type as coded in vt/annot.py.",
+    "bounded-exhaustive enumeration of (type under test, companions, value) on the real implementation vs documented meaning",
+    "DESIGN.md section 5 C11")
+
 ALL = [f"C{i:02d}" for i in range(1, 21)]
 REASON_PENDING = "check not built yet in this round (planned: DESIGN.md section 5); not claimed until its machinery exists"
 
